@@ -1,27 +1,28 @@
 //! C03: incremental processing equals one-shot processing for every chunking.
+//!
+//! One query per (length, partition): the cut mask is concrete (bit i set = cut between byte
+//! i and byte i+1), so every chunk is a slice of concrete bounds; all byte values are symbolic.
+//! All 2^(n-1) partitions of a length are separate queries.
 use crate::common::Sink;
 use crate::strip_common::*;
 use anstream::adapter::{strip_bytes, strip_str, StripBytes, StripStr};
 use std::io::Write as _;
 
-/// Bit i of `mask` set = cut between byte i and byte i+1.  All 2^(N-1) partitions.
-macro_rules! bytes_chunked {
-    ($name:ident, $sname:ident, $n:expr, $u:literal) => {
+macro_rules! chunked_case {
+    ($bname:ident, $sname:ident, $tname:ident, $n:expr, $mask:expr, $u:literal) => {
+        /// byte adapter, chunked vs one-shot
         #[kani::proof]
         #[kani::unwind($u)]
-        fn $name() {
+        fn $bname() {
             let buf: [u8; $n] = kani::any();
-            let mask: u8 = kani::any();
             let (_keep, ctl) = spec(&buf, $n);
             #[cfg(feature = "kf_c01_ctl_in_broken_utf8")]
             kani::assume(!ctl);
-            // one-shot
             let mut one = [false; $n];
             let mut pos = 0usize;
             for piece in strip_bytes(&buf) {
                 let _ = mark(&buf, piece, &mut pos, &mut one);
             }
-            // chunked through one incremental adapter
             let mut inc = [false; $n];
             let mut pos = 0usize;
             let mut st = StripBytes::new();
@@ -29,7 +30,7 @@ macro_rules! bytes_chunked {
             let mut i = 0usize;
             let mut ok = true;
             while i < $n {
-                let cut = i == $n - 1 || (mask >> i) & 1 == 1;
+                let cut = i == $n - 1 || (($mask as u32) >> i) & 1 == 1;
                 if cut {
                     for piece in st.strip_next(&buf[start..=i]) {
                         ok &= mark(&buf, piece, &mut pos, &mut inc);
@@ -40,34 +41,32 @@ macro_rules! bytes_chunked {
             }
             assert!(ok, "pieces: inside the chunk, in order, no control byte");
             assert!(same(&one, &inc), "chunked result equals one-shot result");
-            kani::cover!(mask & 1 == 1 && buf[0] == 0x1B && $n > 1);
-            kani::cover!($n > 1 && mask & 1 == 1 && buf[0] >= 0xC2 && inc[0] && inc[1]);
-            kani::cover!(mask == 0);
+            kani::cover!(buf[0] == 0x1B && !inc[$n - 1]);
+            kani::cover!(buf[0] >= 0xC2 && inc[0] && inc[1]);
         }
 
-        /// the strip stream fed chunk by chunk with write_all
+        /// strip stream fed chunk by chunk with write_all
         #[kani::proof]
         #[kani::unwind($u)]
         fn $sname() {
             let buf: [u8; $n] = kani::any();
-            let mask: u8 = kani::any();
             let (_keep, ctl) = spec(&buf, $n);
             #[cfg(feature = "kf_c01_ctl_in_broken_utf8")]
             kani::assume(!ctl);
             let mut one: Sink<$n> = Sink::new();
             {
-                let w: &mut dyn std::io::Write = &mut one;
+                let w: &mut (dyn std::io::Write + 'static) = &mut one;
                 let mut s = anstream::StripStream::new(w);
                 assert!(s.write_all(&buf).is_ok());
             }
             let mut inc: Sink<$n> = Sink::new();
             {
-                let w: &mut dyn std::io::Write = &mut inc;
+                let w: &mut (dyn std::io::Write + 'static) = &mut inc;
                 let mut s = anstream::StripStream::new(w);
                 let mut start = 0usize;
                 let mut i = 0usize;
                 while i < $n {
-                    let cut = i == $n - 1 || (mask >> i) & 1 == 1;
+                    let cut = i == $n - 1 || (($mask as u32) >> i) & 1 == 1;
                     if cut {
                         assert!(s.write_all(&buf[start..=i]).is_ok());
                         start = i + 1;
@@ -76,25 +75,22 @@ macro_rules! bytes_chunked {
                 }
             }
             assert!(crate::common::sinks_equal(&one, &inc), "chunked stream output equals one-shot output");
-            kani::cover!(mask & 1 == 1 && buf[0] == 0x1B && $n > 1);
+            kani::cover!(buf[0] == 0x1B && inc.len < $n);
         }
-    };
-}
 
-bytes_chunked!(bytes_chunked_2, stream_chunked_2, 2, 4);
-bytes_chunked!(bytes_chunked_3, stream_chunked_3, 3, 5);
-bytes_chunked!(bytes_chunked_4, stream_chunked_4, 4, 6);
-bytes_chunked!(bytes_chunked_5, stream_chunked_5, 5, 7);
-
-/// Text adapters: cuts only at character boundaries.
-macro_rules! str_chunked {
-    ($name:ident, $n:expr, $u:literal) => {
+        /// text adapter: the cuts of this partition must fall on character boundaries
         #[kani::proof]
         #[kani::unwind($u)]
-        fn $name() {
+        fn $tname() {
             let buf: [u8; $n] = kani::any();
-            let mask: u8 = kani::any();
             kani::assume(valid_utf8(&buf));
+            let mut i = 0usize;
+            while i + 1 < $n {
+                if (($mask as u32) >> i) & 1 == 1 {
+                    kani::assume(!is_continuation(buf[i + 1]));
+                }
+                i += 1;
+            }
             let text = match core::str::from_utf8(&buf) {
                 Ok(t) => t,
                 Err(_) => {
@@ -114,13 +110,8 @@ macro_rules! str_chunked {
             let mut i = 0usize;
             let mut ok = true;
             while i < $n {
-                let last = i == $n - 1;
-                let cut = last || (mask >> i) & 1 == 1;
+                let cut = i == $n - 1 || (($mask as u32) >> i) & 1 == 1;
                 if cut {
-                    // a cut must fall on a character boundary
-                    if !last {
-                        kani::assume(!is_continuation(buf[i + 1]));
-                    }
                     let chunk = match core::str::from_utf8(&buf[start..=i]) {
                         Ok(t) => t,
                         Err(_) => {
@@ -137,12 +128,38 @@ macro_rules! str_chunked {
             }
             assert!(ok, "pieces: inside the chunk, in order, no control byte");
             assert!(same(&one, &inc), "chunked result equals one-shot result");
-            kani::cover!(mask & 1 == 1 && buf[0] == 0x1B && $n > 1);
-            kani::cover!(mask == 0);
+            kani::cover!(buf[0] == 0x1B && !inc[$n - 1]);
         }
     };
 }
 
-str_chunked!(str_chunked_2, 2, 4);
-str_chunked!(str_chunked_3, 3, 5);
-str_chunked!(str_chunked_4, 4, 6);
+chunked_case!(bytes_n2_m0, stream_n2_m0, str_n2_m0, 2, 0, 4);
+chunked_case!(bytes_n2_m1, stream_n2_m1, str_n2_m1, 2, 1, 4);
+chunked_case!(bytes_n3_m0, stream_n3_m0, str_n3_m0, 3, 0, 5);
+chunked_case!(bytes_n3_m1, stream_n3_m1, str_n3_m1, 3, 1, 5);
+chunked_case!(bytes_n3_m2, stream_n3_m2, str_n3_m2, 3, 2, 5);
+chunked_case!(bytes_n3_m3, stream_n3_m3, str_n3_m3, 3, 3, 5);
+chunked_case!(bytes_n4_m0, stream_n4_m0, str_n4_m0, 4, 0, 6);
+chunked_case!(bytes_n4_m1, stream_n4_m1, str_n4_m1, 4, 1, 6);
+chunked_case!(bytes_n4_m2, stream_n4_m2, str_n4_m2, 4, 2, 6);
+chunked_case!(bytes_n4_m3, stream_n4_m3, str_n4_m3, 4, 3, 6);
+chunked_case!(bytes_n4_m4, stream_n4_m4, str_n4_m4, 4, 4, 6);
+chunked_case!(bytes_n4_m5, stream_n4_m5, str_n4_m5, 4, 5, 6);
+chunked_case!(bytes_n4_m6, stream_n4_m6, str_n4_m6, 4, 6, 6);
+chunked_case!(bytes_n4_m7, stream_n4_m7, str_n4_m7, 4, 7, 6);
+chunked_case!(bytes_n5_m0, stream_n5_m0, str_n5_m0, 5, 0, 7);
+chunked_case!(bytes_n5_m1, stream_n5_m1, str_n5_m1, 5, 1, 7);
+chunked_case!(bytes_n5_m2, stream_n5_m2, str_n5_m2, 5, 2, 7);
+chunked_case!(bytes_n5_m3, stream_n5_m3, str_n5_m3, 5, 3, 7);
+chunked_case!(bytes_n5_m4, stream_n5_m4, str_n5_m4, 5, 4, 7);
+chunked_case!(bytes_n5_m5, stream_n5_m5, str_n5_m5, 5, 5, 7);
+chunked_case!(bytes_n5_m6, stream_n5_m6, str_n5_m6, 5, 6, 7);
+chunked_case!(bytes_n5_m7, stream_n5_m7, str_n5_m7, 5, 7, 7);
+chunked_case!(bytes_n5_m8, stream_n5_m8, str_n5_m8, 5, 8, 7);
+chunked_case!(bytes_n5_m9, stream_n5_m9, str_n5_m9, 5, 9, 7);
+chunked_case!(bytes_n5_m10, stream_n5_m10, str_n5_m10, 5, 10, 7);
+chunked_case!(bytes_n5_m11, stream_n5_m11, str_n5_m11, 5, 11, 7);
+chunked_case!(bytes_n5_m12, stream_n5_m12, str_n5_m12, 5, 12, 7);
+chunked_case!(bytes_n5_m13, stream_n5_m13, str_n5_m13, 5, 13, 7);
+chunked_case!(bytes_n5_m14, stream_n5_m14, str_n5_m14, 5, 14, 7);
+chunked_case!(bytes_n5_m15, stream_n5_m15, str_n5_m15, 5, 15, 7);
